@@ -1157,6 +1157,9 @@ func Run(c *hx.Ctx) {
 	if only == "" || only == "trust2" {
 		runTrust2(c, l)
 	}
+	if only == "" || only == "cconn" {
+		runClientConnect(c, g)
+	}
 	if only != "" {
 		if only == "res" {
 			runResumeLate(c, l)
